@@ -278,9 +278,9 @@ func verifC29Names(w [][]any) []string {
 
 // verifC29Replay executes one specification behaviour on a fresh queue.  It returns a
 // mismatch (nil if the code followed the model) and the number of steps executed.
-func verifC29Replay(tr *verifkit.Trace, b []verifkit.Step, res *verifkit.Result) (mm *verifkit.Mismatch, steps int) {
+func verifC29Replay(tr *verifkit.Trace, b []verifkit.Step, res *verifkit.Result) (mm *verifkit.Mismatch, steps int, diverged bool) {
 	if len(b) == 0 || b[0].Act() != "Init" {
-		return nil, 0
+		return nil, 0, false
 	}
 	r := verifC29NewRec(tr, int64(b[0].Int("cap")))
 	calls := map[string]*verifC29Call{}
@@ -314,27 +314,27 @@ func verifC29Replay(tr *verifkit.Trace, b []verifkit.Step, res *verifkit.Result)
 			calls[key(st)] = c
 			info := verifC29Wait(c.acq, "acquire hook")
 			if info.fast != st.Bool("fast") {
-				return bad(idx, map[string]any{"fast": st.Bool("fast")}, map[string]any{"fast": info.fast}, "fast path decision"), steps
+				return bad(idx, map[string]any{"fast": st.Bool("fast")}, map[string]any{"fast": info.fast}, "fast path decision"), steps, false
 			}
 			gotGs, haveGs = info.gs, true
 			if info.fast {
 				if err := c.wait("fast return"); err != nil {
-					return bad(idx, "nil", err.Error(), "fast path returned an error"), steps
+					return bad(idx, "nil", err.Error(), "fast path returned an error"), steps, false
 				}
 			}
 		case "Wake":
 			c := calls[key(st)]
 			if c.qry == nil || !isClosed(c.qry.ch) {
-				return bad(idx, "woken", "channel not closed", "model: query was granted"), steps
+				return bad(idx, "woken", "channel not closed", "model: query was granted"), steps, false
 			}
 			if err := c.wait("wake return"); err != nil {
-				return bad(idx, "nil", err.Error(), "granted query returned an error"), steps
+				return bad(idx, "nil", err.Error(), "granted query returned an error"), steps, false
 			}
 		case "CancelWake":
 			c := calls[key(st)]
 			if st.Bool("parked") {
 				if c.qry == nil || isClosed(c.qry.ch) {
-					return bad(idx, "parked", "granted or not queued", "model: query waits"), steps
+					return bad(idx, "parked", "granted or not queued", "model: query waits"), steps, false
 				}
 				c.cancel()
 				verifC29Wait(c.reached, "ctx.Done branch")
@@ -346,7 +346,7 @@ func verifC29Replay(tr *verifkit.Trace, b []verifkit.Step, res *verifkit.Result)
 			c.openGate()
 			err := c.wait("cancel return")
 			if (err == nil) != st.Bool("isnil") {
-				return bad(idx, map[string]any{"isnil": st.Bool("isnil")}, map[string]any{"isnil": err == nil}, "outcome of a cancelled Acquire"), steps
+				return bad(idx, map[string]any{"isnil": st.Bool("isnil")}, map[string]any{"isnil": err == nil}, "outcome of a cancelled Acquire"), steps, false
 			}
 		case "Release":
 			tr.Emit("RelIntent", "u", st.Str("u"), "i", st.Int("i"))
@@ -367,22 +367,33 @@ func verifC29Replay(tr *verifkit.Trace, b []verifkit.Step, res *verifkit.Result)
 		r.q.mx.Lock()
 		act, cp, w := r.snap()
 		r.q.mx.Unlock()
-		got := map[string]any{"active": act, "observe": obs, "cap": cp, "waiting": verifC29Names(w)}
+		// What the property fixes: the counts.  Which of several eligible queries was woken is
+		// the mechanism's choice (judged by the fairness invariant of the trace specification):
+		// if only the identities differ the rest of the behaviour cannot be replayed and is dropped.
+		wantW := verifC29PostWaiting(post)
+		gotW := verifC29Names(w)
+		got := map[string]any{"active": act, "observe": obs, "cap": cp, "nwaiting": len(gotW)}
 		want := map[string]any{"active": int64(post["active"].(float64)), "observe": int64(post["active"].(float64)),
-			"cap": int64(post["cap"].(float64)), "waiting": verifC29PostWaiting(post)}
+			"cap": int64(post["cap"].(float64)), "nwaiting": len(wantW)}
+		same := verifkit.Canon(gotW) == verifkit.Canon(wantW)
 		if haveGs {
 			wgs := verifC29Pairs(st["gs"])
 			got["woken"] = len(gotGs)
 			want["woken"] = len(wgs)
-			if verifkit.Canon(verifC29Names(gotGs)) != verifkit.Canon(verifC29Names(wgs)) || (len(gotGs) > 0 && verifkit.Canon(gotGs) != verifkit.Canon(wgs)) {
-				res.Count("queue_grant_identity_differs_from_mechanism", 1)
+			if len(gotGs) > 0 && verifkit.Canon(gotGs) != verifkit.Canon(wgs) {
+				same = false
 			}
 		}
 		if verifkit.Canon(got) != verifkit.Canon(want) {
-			return bad(idx, want, got, "state after "+st.Act()), steps
+			got["waiting"], want["waiting"] = gotW, wantW
+			return bad(idx, want, got, "state after "+st.Act()), steps, false
+		}
+		if !same {
+			res.Count("queue_grant_identity_differs_from_mechanism", 1)
+			return nil, steps, true
 		}
 	}
-	return nil, steps
+	return nil, steps, false
 }
 
 // verifC29Random runs free goroutines against one queue; only the trace is judged.
@@ -502,10 +513,13 @@ func TestVerifC29Queue(t *testing.T) {
 	verifC29Install()
 	tr := verifkit.NewTrace()
 	for _, b := range verifkit.LoadBehaviours(t) {
-		mm, steps := verifC29Replay(tr, b, res)
+		mm, steps, diverged := verifC29Replay(tr, b, res)
 		res.Steps += steps
 		if mm != nil {
 			res.Mismatch(*mm)
+			continue
+		}
+		if diverged {
 			continue
 		}
 		res.Replayed++
